@@ -140,6 +140,9 @@ impl ServerAeadCodec {
             //#C06 C16
             // the server honours exactly the ids of the configured users; one malformed user id stops startup with an error
             r matches Ok(c) ==> c.keys@.len() == config.user@.len() && forall|i: int| 0 <= i < c.keys@.len() ==> vmess_id(str_u8(&config.user@[i].password)) == Some(#[trigger] c.keys@[i]@),
+            //#C01 C04 C06
+            // a fresh codec has parsed no request header yet: the first bytes of the connection are read as the header, never as payload
+            r matches Ok(c) ==> !c.connected && c.decode_state is Init && c.encode_state is Init,
     {
         let uuid: Vec<&String> = config.user.iter().map(|u: &User| -> (r: &String) ensures *r == u.password { &u.password }).collect();
         proof { assert(uuid@.len() == config.user@.len()); assert(forall|i: int| 0 <= i < uuid@.len() ==> *uuid@[i] == config.user@[i].password); }
